@@ -348,6 +348,7 @@ pub fn small_layout(internal: u8, depth: u8) -> Layout {
         zero_counters: 0,
         overlap_prefixes: false,
         inline: 0,
+        to_end: false,
     }
 }
 
